@@ -157,6 +157,23 @@ def r13_10(chk, facts):
                 A.strip_targs(fn.get('cls') or fn['n']).split('::')[-1], A.callee_name(c)), None, fn['q'])
     chk.require(n >= 3, 'R13.10: only %d sort calls found in jmespath.hpp' % n)
 
+def r13_11(chk, facts):
+    """merge(): later objects override earlier ones - for every kind of value."""
+    chk.rule('R13.11', 'merge() overriding: every insertion into the result object of merge_function::evaluate is an insert_or_assign (a later '
+                       'argument replaces the member of an earlier one); try_emplace / emplace / insert keep the first value, so an array or '
+                       'object member of a later argument would be ignored', floor=1)
+    fns = [f for f in facts.functions if f['n'] == 'evaluate' and A.strip_targs(f.get('cls') or '').endswith('::merge_function') and f.get('body') is not None and not f.get('dep')]
+    chk.require(fns, 'jmespath merge_function::evaluate not found')
+    fn = U.one_per_inst(fns)[0]
+    chk.analysed(fn)
+    ins = [c for c in A.calls_in(fn['body'], no_lambda=True) if c.get('k') == 'CXXMemberCallExpr' and A.callee_name(c) in ('insert_or_assign', 'try_emplace', 'emplace', 'insert', 'set', 'emplace_back', 'push_back')
+           and 'basic_json' in (c.get('cq') or '')]
+    chk.require(ins, 'merge_function::evaluate: no insertion into the result found')
+    for i, c in enumerate(ins):
+        site = U.site(fn, 'insertion #%d' % (i + 1))
+        if A.callee_name(c) == 'insert_or_assign': chk.ok('R13.11', site, {'line': c.get('l')})
+        else: chk.fail('R13.11', site, fn['file'], c.get('l'), 'merge() adds a member with %s (line %s): a member already taken from an earlier argument is kept, the later one is ignored' % (A.callee_name(c), c.get('l')), None, fn['q'])
+
 def run(chk, tier, only_rule=None):
     chk.explanation = EXPLANATION
     chk.not_decided = NOT_DECIDED
@@ -347,6 +364,7 @@ def run(chk, tier, only_rule=None):
     r13_7(chk, facts)
     r13_9(chk, facts)
     r13_10(chk, facts)
+    r13_11(chk, facts)
     # length(), reverse() and the comparison of strings go through the UTF-8 decoder
     from . import c02
     c02.r02_9(chk, F.load(['core'], tier), rid='R02.9')
